@@ -129,6 +129,8 @@ pub struct StakeScen {
     /// heights at which a transaction succeeded (probe heights of the at-height queries)
     heights: Vec<u64>,
     seed: u64,
+    /// trace number of the header (generation stories are chosen by it)
+    trace: u64,
     /// `cw4stakewide`: 36 actors (C20)
     wide: bool,
     /// set by `small_scope`: the balances every following `start` uses instead of drawing them per trace (the
@@ -151,6 +153,7 @@ impl StakeScen {
             cfg: None,
             heights: vec![],
             seed: 0,
+            trace: 0,
             wide: false,
             small_bal: None,
         }
@@ -698,6 +701,7 @@ impl Scenario for StakeScen {
             .collect();
         self.setup(pool, bal);
         self.seed = a.u64("seed");
+        self.trace = a.opt("trace").and_then(|t| t.parse().ok()).unwrap_or(0);
         self.wide = a.get("wide") == Some("1");
     }
 
@@ -709,6 +713,24 @@ impl Scenario for StakeScen {
         if self.wide && rng.chance(7, 10) {
             if let Some(op) = self.gen_wide_op(rng) {
                 return op;
+            }
+        }
+        // "drip" traces (one in six, by seed): one staker piles up many small open claims (more than any cap or page
+        // a claims vector might have), then unbonds a lot and claims as soon as the OLDEST small claims have matured
+        if self.trace % 6 == 1 {
+            let hoarder = self.pool[0].clone();
+            let open = self.claims(&hoarder).len();
+            let st = self.staked(&hoarder);
+            let r = rng.below(10);
+            if st > 40 && open < 14 && r < 7 {
+                return format!("exec {hoarder} unbond amt={}", 1 + rng.below(3));
+            }
+            if st > 40 && open >= 11 && r < 9 {
+                return match rng.below(3) {
+                    0 => format!("exec {hoarder} unbond amt={}", st / 2),
+                    1 => self.gen_env(rng),
+                    _ => format!("exec {hoarder} claim"),
+                };
             }
         }
         let r = rng.below(100);
